@@ -34,6 +34,12 @@ size_t align_up(size_t v, size_t a) { return (v + a - 1) / a * a; }
 
 // Validate one single complete type starting at s[i]; returns the index one
 // past its end or NPOS.  ad/sd = number of enclosing arrays / structs+dict entries.
+// Relaxations used ONLY to recognise two listed findings by their exact condition ("would this input be valid if
+// the reference's known deviation were the rule?"); both are off except inside wire::valid_if_relaxed().
+static bool g_relax_dict_budget = false;       // the reference's depth accounting: dict entries on a third budget of their own, array depth = run of consecutive 'a' only
+static bool g_relax_unique_period = false;     // a unique name may consist of a single element (":abc")
+static int g_dict_depth = 0;
+
 size_t check_single(const char *s, size_t n, size_t i, int ad, int sd) {
   if (i >= n) return NPOS;
   char c = s[i];
@@ -41,10 +47,13 @@ size_t check_single(const char *s, size_t n, size_t i, int ad, int sd) {
   if (c == 'a') {
     if (ad + 1 > kMaxSigNest) return NPOS;
     if (i + 1 < n && s[i + 1] == '{') {            // dict entry: only as array element
-      if (sd + 1 > kMaxSigNest) return NPOS;
+      if (g_relax_dict_budget) { if (g_dict_depth + 1 > kMaxSigNest) return NPOS; }
+      else if (sd + 1 > kMaxSigNest) return NPOS;
       size_t k = i + 2;
       if (k >= n || !is_basic(s[k])) return NPOS;  // key must be a basic type
-      size_t v = check_single(s, n, k + 1, ad + 1, sd + 1);
+      if (g_relax_dict_budget) g_dict_depth++;
+      size_t v = check_single(s, n, k + 1, g_relax_dict_budget ? 0 : ad + 1, g_relax_dict_budget ? sd : sd + 1);
+      if (g_relax_dict_budget) g_dict_depth--;
       if (v == NPOS || v >= n || s[v] != '}') return NPOS;  // exactly two fields
       return v + 1;
     }
@@ -55,7 +64,7 @@ size_t check_single(const char *s, size_t n, size_t i, int ad, int sd) {
     size_t j = i + 1;
     int fields = 0;
     while (j < n && s[j] != ')') {
-      j = check_single(s, n, j, ad, sd + 1);
+      j = check_single(s, n, j, g_relax_dict_budget ? 0 : ad, sd + 1);
       if (j == NPOS) return NPOS;
       fields++;
     }
@@ -630,8 +639,31 @@ bool valid_utf8(const std::string &s) {
   return true;
 }
 
+// the reference's unique-name branch as listed in finding C01-unique-name-without-period: after ':' only "every '.'
+// is followed by a name character" is checked - no minimum of two elements, and the first element may be empty
+static bool lax_unique_tail(const char *p, size_t n) {
+  auto ok = [](char c) { return (c >= 'a' && c <= 'z') || (c >= 'A' && c <= 'Z') || (c >= '0' && c <= '9') || c == '_' || c == '-'; };
+  for (size_t i = 0; i < n; i++) {
+    if (p[i] == '.') {
+      if (i + 1 == n || !ok(p[i + 1])) return false;
+      i++;
+    } else if (!ok(p[i])) return false;
+  }
+  return true;
+}
+
 bool valid_unique_name(const std::string &s) {
+  if (g_relax_unique_period) return !s.empty() && s.size() <= kMaxName && s[0] == ':' && lax_unique_tail(s.data() + 1, s.size() - 1);
   return !s.empty() && s.size() <= kMaxName && s[0] == ':' && dotted(s.data() + 1, s.size() - 1, true, true, 2);
+}
+
+bool valid_if_relaxed(const std::string &bytes, int which, const Limits &lim) {
+  g_relax_dict_budget = which == 1;
+  g_relax_unique_period = which == 2;
+  g_dict_depth = 0;
+  ParseResult r = parse(reinterpret_cast<const uint8_t *>(bytes.data()), bytes.size(), lim);
+  g_relax_dict_budget = g_relax_unique_period = false;
+  return r.status == P_OK;
 }
 bool valid_wellknown_name(const std::string &s) {
   return !s.empty() && s.size() <= kMaxName && s[0] != ':' && dotted(s.data(), s.size(), true, false, 2);
